@@ -93,7 +93,7 @@ pub type TransFn<'a> = &'a (dyn Fn(&Envelope, &str, &Result<Option<Envelope>, Pa
 /// Breadth-first from every root (roots in parallel). `on_state` is called once per distinct state (including roots),
 /// `on_trans` once per (state, op) pair. Path descriptions are built lazily.
 pub fn explore(roots: &[(String, Envelope)], ops: &[Op], depth: usize, on_state: StateFn, on_trans: TransFn, imm_sig: Option<&str>) -> (Stats, Acc) {
-    let results: Vec<(Stats, Acc)> = roots.par_iter().map(|(rname, root)| {
+    let results: Vec<(Stats, Acc)> = roots.par_iter().with_max_len(1).map(|(rname, root)| {
         let mut acc = Acc::new();
         let mut st = Stats { states: 0, transitions: 0, merged: 0, refused: 0, panics: 0, max_depth: 0, sequences: 0, per_depth: vec![0; depth + 1] };
         let mut seen: HashSet<O> = HashSet::new();
